@@ -211,6 +211,7 @@ LEVEL_TEXT = ("Lean 4 theorems about an executable model of the frame assembly o
 LEVEL_NOTE = ("Trusted: Lean kernel + standard axioms; hand model of pandas dropna/isfinite/join/concat/sort_index on unique time-sorted "
               "labels (validated by T2 only); routing uniqueness is C13's theorem (hypothesis here); usage cells that are +-inf are outside "
               "the property's quantifier and outside the theorem.")
-TECHNIQUE = "Lean 4 proof (per-row case analysis lifted over lists; sums over R) + pattern-exhaustive differential correspondence"
+TECHNIQUE = ("Lean 4 proof (per-row case analysis lifted over lists; sums over R; the masking statement of _predict re-extracted from the source on "
+             "every run is proved to be the mode the theorems are about, on by default and not skippable) + pattern-exhaustive differential correspondence")
 ASSUMPTIONS = ["index labels unique and time-sorted (what the data classes hand out)", "every clean row is routed to exactly one sub-model (C13)",
                "usage cells are finite or NaN"]
